@@ -15,21 +15,30 @@ use crate::report::*;
 /// every cell gets a letter that differs from its four neighbours
 pub fn fill(cfg: &Cfg) -> Vec<Cmd> {
     let mut v = vec![];
-    for r in 0..cfg.rows {
-        v.push(Cup(Some(r as u32 + 1), Some(1)));
+    let glyph = |r: usize, cc: usize| -> char {
         // (a Latin-1, a double-width and a zero-width character in every row of a screen that is
         // wide enough to have them away from the picked cursor columns)
-        let s: String = (0..cfg.cols)
-            .map(|cc| match (cfg.cols >= 20, (r * 5 + cc) % 23) {
-                (true, 7) => 'é',
-                (true, 13) => '漢',
-                (true, 19) => '\u{301}',
-                // (lowercase: the range the special-graphics set translates, so that a character
-                // REPeated or re-typed under another charset than it was written in shows)
-                _ => char::from_u32('a' as u32 + ((r * 7 + cc * 3) % 26) as u32).unwrap(),
-            })
-            .collect();
+        match (cfg.cols >= 20, (r * 5 + cc) % 23) {
+            (true, 7) => 'é',
+            (true, 13) => '漢',
+            (true, 19) => '\u{301}',
+            // (lowercase: the range the special-graphics set translates, so that a character
+            // REPeated or re-typed under another charset than it was written in shows)
+            _ => char::from_u32('a' as u32 + ((r * 7 + cc * 3) % 26) as u32).unwrap(),
+        }
+    };
+    let mut r = 0;
+    while r < cfg.rows {
+        v.push(Cup(Some(r as u32 + 1), Some(1)));
+        // on screens of 10 rows and more every fifth row is typed through into the next one:
+        // soft-wrapped rows among the hard-ended ones (also as the last row of a region)
+        let joined = cfg.rows >= 10 && r % 5 == 4 && r + 1 < cfg.rows;
+        let mut s: String = (0..cfg.cols).map(|cc| glyph(r, cc)).collect();
+        if joined {
+            s.extend((0..cfg.cols).map(|cc| glyph(r + 1, cc)));
+        }
         v.push(Text(s));
+        r += if joined { 2 } else { 1 };
     }
     v.push(Cup(Some(1), Some(1)));
     v
